@@ -513,3 +513,40 @@ Fixpoint load_pairings (f : pfile) : option (list (bytes * pdata)) :=
   end.
 (* Controller.save_data before printing *)
 Definition save_pairings (l : list (bytes * pdata)) : pfile := l.
+
+(* ---------------------------------------------------------------- the cache map (storage_data)
+   CharacteristicCacheMemory: a dict  pairing id -> entry.  async_create_or_update_map stores
+   exactly the entry built from its arguments (a None broadcast key / state number is stored as
+   None, it does not fall back to an older value); async_delete_map removes the id. *)
+Section CacheMap.
+  Variable E : Type.
+  Definition cmap := list (bytes * E).
+  Inductive cop := CUpdate (id : bytes) (e : E) | CDelete (id : bytes).
+
+  Fixpoint map_get (id : bytes) (m : cmap) : option E :=
+    match m with
+    | [] => None
+    | (k, e) :: r => if bytes_eqb k id then Some e else map_get id r
+    end.
+  (* dict assignment: an existing key keeps its position, a new key is appended *)
+  Fixpoint map_update (id : bytes) (e : E) (m : cmap) : cmap :=
+    match m with
+    | [] => [(id, e)]
+    | (k, e') :: r => if bytes_eqb k id then (k, e) :: r else (k, e') :: map_update id e r
+    end.
+  Definition map_delete (id : bytes) (m : cmap) : cmap :=
+    filter (fun ke => negb (bytes_eqb (fst ke) id)) m.
+  Definition map_step (m : cmap) (o : cop) : cmap :=
+    match o with CUpdate id e => map_update id e m | CDelete id => map_delete id m end.
+  Definition map_run (ops : list cop) (m : cmap) : cmap := fold_left map_step ops m.
+
+  (* what the last operation on id wrote *)
+  Fixpoint last_write (id : bytes) (ops : list cop) (cur : option E) : option E :=
+    match ops with
+    | [] => cur
+    | CUpdate i e :: r => last_write id r (if bytes_eqb i id then Some e else cur)
+    | CDelete i :: r => last_write id r (if bytes_eqb i id then None else cur)
+    end.
+End CacheMap.
+Arguments CUpdate {E} id e.
+Arguments CDelete {E} id.
